@@ -188,11 +188,7 @@ Definition o_mkdir (s : ofs) (name : str) (perm : N) : ofs * res :=
           | Some _ => (s, RFail EFileExists)
           | None =>
               match ofind s dir_name with
-              | None =>
-                  match o_up_loop (S (length dir_name)) s dir_name with
-                  | None => (s, RPanic)
-                  | Some n => (s, RFail (if on_dir n then ENoSuchDir else ENotADirectory))
-                  end
+              | None => (s, o_enf s abs_path (RFail ENoSuchDir))
               | Some (pi, pn) =>
                   if negb (on_dir pn) then (s, RFail ENotADirectory)
                   else (fst (o_create_dir s pi abs_path file_name perm), ROk)
@@ -210,6 +206,8 @@ Fixpoint o_missing (fuel : nat) (s : ofs) (dir_name : str) (ds : list str) : res
       match ofind s dir_name with
       | Some (i, n) => if on_dir n then inr (ds, i) else inl (RErrPath ENotADirectory dir_name)
       | None =>
+          if Nat.leb (length dir_name) (volume_name_len (o_os s) dir_name) then inl (RFail ENoSuchDir)   (* no such volume *)
+          else
           match osplit (o_os s) dir_name with
           | None => inl RPanic
           | Some (d, _) => o_missing f s d (ds ++ [dir_name])
